@@ -409,6 +409,57 @@ theorem coreness_max_bd_of (A : AMat Int n) (h01 : ∀ i j, A.get i j = 0 ∨ A.
   · rintro ⟨k', hkk, _, hv, _⟩
     exact (core_nested_bd A hk hkk).1 hv
 
+/-! ## k = 0 and s ≤ 0
+
+Every node set has minimum internal degree ≥ 0, so the "largest set" is the whole node set and the
+restricted matrix is the input itself: that is what the routines return (nothing is peeled).  The
+reported size, however, is by the code's convention `np.sum(deg > 0)` — the number of non-isolated nodes,
+not `n`; this is why the size clause of the property is stated (and judged) for `k ≥ 1` / `s > 0` only. -/
+
+theorem degBd_eq_degIn (A : AMat Int n) (v : Fin n) : degBd A v = degInBd A univ v := by
+  unfold degBd degInBd
+  rw [sum_map_finRange, Finset.sum_add_distrib, Finset.card_filter, Finset.card_filter]
+
+theorem strWu_eq_strIn (A : AMat Rat n) (v : Fin n) : strWu A v = strIn A univ v := by
+  unfold strWu strIn
+  rw [sum_map_finRange]
+
+theorem kcore_bu_zero (A : AMat Int n) :
+    (kcoreBu A 0).M = A ∧ (kcoreBu A 0).order = [] ∧ (kcoreBu A 0).level = [] ∧
+      (kcoreBu A 0).kn = (univ.filter fun v => 0 < degInBu A univ v).card := by
+  unfold kcoreBu
+  rw [peelLoop_no_small 0 degBu (smallNat 0) posNat (by intro x; simp [smallNat])]
+  refine ⟨rfl, rfl, rfl, ?_⟩
+  simp only [countPos]
+  rw [length_filter_finRange]
+  congr 1; ext v
+  simp [posNat_iff, degBu_eq_card, degInBu]
+
+theorem kcore_bd_zero (A : AMat Int n) :
+    (kcoreBd A 0).M = A ∧ (kcoreBd A 0).order = [] ∧ (kcoreBd A 0).level = [] ∧
+      (kcoreBd A 0).kn = (univ.filter fun v => 0 < degInBd A univ v).card := by
+  unfold kcoreBd
+  rw [peelLoop_no_small 0 degBd (smallNat 0) posNat (by intro x; simp [smallNat])]
+  refine ⟨rfl, rfl, rfl, ?_⟩
+  simp only [countPos]
+  rw [length_filter_finRange]
+  congr 1; ext v
+  simp [posNat_iff, degBd_eq_degIn]
+
+theorem score_wu_nonpos (A : AMat Rat n) (s : ℚ) (hs : s ≤ 0) :
+    (scoreWu A s).M = A ∧ (scoreWu A s).kn = (univ.filter fun v => 0 < strIn A univ v).card := by
+  unfold scoreWu
+  rw [peelLoop_no_small 0 strWu (smallRat s) posRat (by
+    intro x
+    rw [Bool.eq_false_iff, Ne, smallRat_iff]
+    rintro ⟨h1, h2⟩
+    exact absurd (lt_trans h1 h2) (not_lt.mpr hs))]
+  refine ⟨rfl, ?_⟩
+  simp only [countPos]
+  rw [length_filter_finRange]
+  congr 1; ext v
+  simp [posRat_iff, strWu_eq_strIn]
+
 /-! ## non-vacuity -/
 
 /-- path 0–1 plus triangle 1-2-3: the 2-core is the triangle, node 0 is peeled in round 1 -/
